@@ -19,40 +19,28 @@ open Statime
 def syncRecv (corr : Int) (t2 : Nat) : Option Nat := timeSubDur t2 (tivToDur corr)
 /-- t1' for a two-step master: preciseOriginTimestamp plus the Follow_Up correction field -/
 def followUpSend (corr : Int) (origin : WireTs) : Option Nat :=
-  match wireToTime origin with
-  | some t0 => timeAddDur t0 (tivToDur corr)
-  | none => none
+  (wireToTime origin).bind fun t0 => timeAddDur t0 (tivToDur corr)
 /-- t1' for a one-step master: originTimestamp of the Sync -/
 def oneStepSend (origin : WireTs) : Option Nat := wireToTime origin
 
 /-- raw_sync_offset = t2' − t1' − delayAsymmetry -/
 def rawSync (send recv : Nat) (asym : Int) : Option Int :=
-  match timeSub recv send with
-  | some d => durSub d asym
-  | none => none
+  (timeSub recv send).bind fun d => durSub d asym
 
 /-- t4': receiveTimestamp of the Delay_Resp minus its correction field -/
 def delayRecv (corr : Int) (rx : WireTs) : Option Nat :=
-  match wireToTime rx with
-  | some t0 => timeSubDur t0 (tivToDur corr)
-  | none => none
+  (wireToTime rx).bind fun t0 => timeSubDur t0 (tivToDur corr)
 
 /-- raw_delay_offset = t3 − t4' − delayAsymmetry -/
 def rawDelay (send recv : Nat) (asym : Int) : Option Int :=
-  match timeSub send recv with
-  | some d => durSub d asym
-  | none => none
+  (timeSub send recv).bind fun d => durSub d asym
 
 /-- mean path delay from the last raw sync offset and a raw delay offset: (rs − rd) / 2 -/
 def meanDelay (rawSync rawDelay : Int) : Option Int :=
-  match durSub rawSync rawDelay with
-  | some x => durHalf x
-  | none => none
+  (durSub rawSync rawDelay).bind durHalf
 
 /-- peer mean link delay: ((t4' − t1) − (t3' − t2)) / 2 -/
 def peerDelay (t1 t2 t3 t4 : Nat) : Option Int :=
-  match timeSub t4 t1, timeSub t3 t2 with
-  | some a, some b => (match durSub a b with | some d => durHalf d | none => none)
-  | _, _ => none
+  (timeSub t4 t1).bind fun a => (timeSub t3 t2).bind fun b => (durSub a b).bind durHalf
 
 end Statime.Spec
